@@ -337,6 +337,13 @@ fn c16_inputs(r: &mut Rng, mats: &[Float], op: usize) -> (Vec<Float>, bool) {
             v.extend(if adv && r.chance(0.5) { adversarial_operand(r, m, row2, false) } else { rand3(r) });
         }
     }
+    // very short ray directions (rays need not be normalised): every component of the transformed direction below
+    // 100 * EPSILON although the direction is not zero - the origin must still be advanced out of its own error box
+    // (seeded change C16-m4: `if !direction.is_zero()` instead of `length_squared() > 0`)
+    if matches!(op, 6 | 7 | 19 | 20) && r.chance(0.12) {
+        let mx = v[3].abs().max(v[4].abs()).max(v[5].abs());
+        if mx > 0.0 { let s = (10.0f64).powf(-r.range(14.5, 22.0)) / mx as f64; for k in 3..6 { v[k] = (v[k] as f64 * s) as Float; } }
+    }
     match op {
         13 | 14 | 17 | 18 => v.extend(err_box(r, m, row)),
         19 | 20 => { v.extend(err_box(r, m, row)); let row2 = r.below(3) as usize; v.extend(err_box(r, m, row2)); }
